@@ -49,7 +49,12 @@ RULE = ("(M) exhaustive TLC run of Stats.tla: every sequence over 0..6 of length
         "one-sample (3 hypothesised means), Welch, pooled, paired t^2 / sign / degrees of freedom at 1e-9 (plus the conditioning of the "
         "difference of means); every p-value of every t-test against Student's t upper tail by quadrature at 1e-9 relative; "
         "history: tt cases and big cases re-run the paired / Welch / pooled tests on the same arrays after "
-        "Mean/Variance/Bounds/Percentile/IQR/StdDev were asked of them (signature suffix /after-queries).")
+        "Mean/Variance/Bounds/Percentile/IQR/StdDev were asked of them (signature suffix /after-queries). "
+        "(P) kind 'conc' (the statistics are functions of their arguments): 2, 3, 4, 8, 16, 32 goroutines, each owning one sample "
+        "(sizes 1..700 on both sides of 20/25/30/32/50/64, or 2..13; four shapes; three of four unsorted), released together, repeat "
+        "Mean/Variance/StdDev/Bounds/Percentile (27 levels)/IQR for 40..3000 rounds against the exact-rational expectations computed "
+        "beforehand (a sequential pass comes first), then as many complete 'big' cases (all t-tests and p-values) run side by side; "
+        "signature suffix /concurrent; a panic in a goroutine is a verdict.")
 
 EXPLANATION = ("Scope of this check: exact rational evaluation, in TLA+, of mean, variance (n-1), bounds, R8 percentiles on the grid "
                "p = j/12, IQR, geometric mean of powers of two, and of the Welch / pooled / paired / one-sample t statistics (t^2, sign, "
@@ -97,6 +102,18 @@ def big_cases(q, rnd):
             add(n, m, sh) if (i + j) % 2 else add(m, n, sh)
     for n in (1, 2, 3, 31, 101, 102, 103, 300):
         add(1, n, "unit"); add(n, 1, "int"); add(n, n, "const"); add(n, 2 * n + 1, "const")
+    return out
+
+
+def conc_cases(q):
+    """Goroutines querying their OWN samples at the same time (the statistics are functions of their arguments):
+    n1 = number of goroutines, n2 = rounds of Mean/Variance/StdDev/Bounds/Percentile/IQR each makes; then n1 complete
+    'big' cases (t-tests, p-values) side by side."""
+    out = []
+    for rep, (w, rounds, shape) in enumerate([(2, 400, "mix"), (2, 3000, "small"), (3, 300, "mix"), (4, 300, "mix"), (8, 150, "mix"),
+                                             (16, 100, "mix"), (4, 2000, "small"), (32, 40, "mix")]):
+        for k in range(1 if q else 4):
+            out.append({"kind": "conc", "n1": w, "n2": rounds, "shape": shape, "rep": rep * 10 + k, "tail": None})
     return out
 
 
@@ -157,9 +174,9 @@ def run(ctx):
                     continue
                 rnd.shuffle(ks)
                 geo.append({"kind": "geoscaled", "xs": ks, "min": min(ks), "max": max(ks), "salt": len(geo)})
-    cases = cases + geo + big_cases(q, rnd)
+    cases = cases + geo + big_cases(q, rnd) + conc_cases(q)
     for c in cases:
-        if c["kind"] == "big":
+        if c["kind"] in ("big", "conc"):
             c["tail"] = tail
         c["salt"] = salt_of(c)
     allc = cases + aux
@@ -169,13 +186,17 @@ def run(ctx):
     ctx.add_samples([{k: v for k, v in c.items() if k not in ("tail",)} for c in smp], 1)
     smp = [c for c in cases if c["kind"] == "desc" and c["xs"] == [3, 3, 3, 6]]
     ctx.add_samples([{k: v for k, v in c.items() if k not in ("tail", "one")} for c in smp], 1)
-    ctx.replay("stats", allc, "replay of TLC-generated samples on internal/stats", timeout=2400)
+    conc = [c for c in allc if c["kind"] == "conc"]
+    ctx.replay("stats", [c for c in allc if c["kind"] != "conc"], "replay of TLC-generated samples on internal/stats", timeout=2400)
+    # schedule-dependent by nature: a deviation class is confirmed when it recurs in one of up to 3 re-runs
+    ctx.replay("stats", conc, "goroutines querying their own samples at the same time (internal/stats)", timeout=1200, confirm="any")
     ctx.cov["distinct_nontrivial"] = nontriv
     ctx.cov["desc_multisets"] = counts["desc"]
     ctx.cov["desc_orders_run"] = orders
     ctx.cov["two_sample_pairs"] = counts["tt"]
     ctx.cov["paired_difference_multisets"] = counts["pd"]
     ctx.cov["large_sample_cases"] = sum(1 for c in cases if c["kind"] == "big")
+    ctx.cov["concurrent_cases"] = sum(1 for c in cases if c["kind"] == "conc")
     ctx.cov["exhaustive"] = True
     ctx.cov["auxiliary"] = {
         "what": "harness-only relational probes of the clauses TLA+/TLC cannot express: TDist CDF in [0,1], monotone on a grid, "
